@@ -408,6 +408,12 @@ Section Programs.
     [Acq (lk x); Load rb x; Store x (EAdd rb a); Rel (lk x)].
   (* values.*.set:  with lock: self._value = value *)
   Definition set_prog (x : lref) (v : Z) : list instr := [Acq (lk x); Store x (EConst v); Rel (lk x)].
+  (* values.*.inc with an amount that cannot be added to the cell (a str, None, a Decimal, an object whose __radd__
+     raises).  inlock = true:  with lock: self._value += amount  - the cell is read, the addition raises INSIDE the
+     critical section, the `with` releases the mutex while the exception unwinds, nothing is stored, the calling
+     operation ends.  inlock = false: the amount is refused before the mutex is taken (the property fixes neither). *)
+  Definition inc_fail_prog (rb : reg) (x : lref) (inlock : bool) : list instr :=
+    if inlock then [Acq (lk x); Load rb x; Raise] else [Raise].
   (* values.*.get (+ MutexValue.get_exemplar, an empty critical section as far as cells go) *)
   Definition get_prog (rb : reg) (x : lref) (locked exsec : bool) : list instr :=
     (if locked then [Acq (lk x); Load rb x; Rel (lk x)] else [Load rb x])
@@ -472,7 +478,8 @@ Section Programs.
     | OCollect (b : N) | OCallReg
     | OUserAcq (u : N) | OUserRel (u : N)
     | OConstruct (c : N) (ks : list key) (nc : nat)
-    | OUnregisterN (c : N) (ks : list key).
+    | OUnregisterN (c : N) (ks : list key)
+    | OIncFail (x : lref) (inlock : bool).
 
   Definition compile_op (rb : reg) (o : op) : list instr :=
     match o with
@@ -493,6 +500,7 @@ Section Programs.
     | OUserRel u => [Rel (SLock (50 + u))]
     | OConstruct c ks nc => construct_prog rb c ks nc
     | OUnregisterN c ks => unregister_names_prog rb c ks
+    | OIncFail x inlock => inc_fail_prog rb x inlock
     end.
   Fixpoint compile_from (rb : reg) (ops : list op) : list instr :=
     match ops with [] => [] | o :: r => compile_op rb o ++ compile_from (rb + 4) r end.
